@@ -29,6 +29,26 @@ func (e *Exec) needStr(v Value, what string) string {
 	return s.s
 }
 
+// concreteStr returns the string, case-splitting every symbolic byte into its feasible values.
+func (e *Exec) concreteStr(v Value, what string) string {
+	s := v.(Str)
+	if s.b == nil {
+		return s.s
+	}
+	out := make([]byte, len(s.b))
+	for i, c := range s.b {
+		switch c := c.(type) {
+		case int64:
+			out[i] = byte(c)
+		case Sym:
+			out[i] = byte(e.path.concretize(e, e.tt.Resize(c.t, 64, false), what))
+		default:
+			panic(abortErr{"fragment", "symbolic string reaches native " + what})
+		}
+	}
+	return string(out)
+}
+
 func (e *Exec) needInt(v Value, what string) int64 {
 	switch v := v.(type) {
 	case int64:
@@ -93,7 +113,9 @@ func init() {
 
 	// ---- regexp ----
 	N("regexp.MustCompile", func(e *Exec, _ *frame, a []Value) Value {
-		pat := e.needStr(a[0], "regexp.MustCompile")
+		// a pattern built from symbolic bytes (a tag name the path has already compared with "raw" or
+		// "comment") is case-split byte by byte: the path condition usually leaves one value
+		pat := e.concreteStr(a[0], "regexp.MustCompile")
 		re, err := regexp.Compile(pat)
 		if err != nil {
 			panic(targetPanic{v: Iface{t: types.Typ[types.String], v: mkStr("regexp: Compile(" + strconv.Quote(pat) + "): " + err.Error())}, site: e.curFrame.site()})
@@ -101,6 +123,7 @@ func init() {
 		e.path.noteNative("regexp.MustCompile")
 		return &Native{re}
 	})
+	// scanWork (below) accounts the input bytes a regular-expression search on concrete data looks at
 	N("regexp.QuoteMeta", func(e *Exec, _ *frame, a []Value) Value {
 		return mkStr(regexp.QuoteMeta(e.needStr(a[0], "regexp.QuoteMeta")))
 	})
@@ -109,7 +132,9 @@ func init() {
 		if s := a[1].(Str); s.b != nil {
 			return e.scanStub(re, s, a[2])
 		}
-		ms := re.FindAllStringSubmatchIndex(e.needStr(a[1], "regexp"), int(e.needInt(a[2], "regexp n")))
+		in := e.needStr(a[1], "regexp")
+		ms := re.FindAllStringSubmatchIndex(in, int(e.needInt(a[2], "regexp n")))
+		e.scanWork(len(in), nil)
 		e.path.noteNative("(*regexp.Regexp).FindAllStringSubmatchIndex")
 		if ms == nil {
 			return Slice{}
@@ -128,7 +153,10 @@ func init() {
 			return e.mkIntSlice(re.FindStringSubmatchIndex(e.cellString(re, s)))
 		}
 		e.path.noteNative("(*regexp.Regexp).FindStringSubmatchIndex")
-		return e.mkIntSlice(re.FindStringSubmatchIndex(e.needStr(a[1], "regexp")))
+		in := e.needStr(a[1], "regexp")
+		m := re.FindStringSubmatchIndex(in)
+		e.scanWork(len(in), m)
+		return e.mkIntSlice(m)
 	})
 	N("(*regexp.Regexp).FindStringIndex", func(e *Exec, _ *frame, a []Value) Value {
 		re := a[0].(*Native).v.(*regexp.Regexp)
@@ -137,7 +165,10 @@ func init() {
 			return e.mkIntSlice(re.FindStringIndex(e.cellString(re, s)))
 		}
 		e.path.noteNative("(*regexp.Regexp).FindStringIndex")
-		return e.mkIntSlice(re.FindStringIndex(e.needStr(a[1], "regexp")))
+		in := e.needStr(a[1], "regexp")
+		m := re.FindStringIndex(in)
+		e.scanWork(len(in), m)
+		return e.mkIntSlice(m)
 	})
 	N("(*regexp.Regexp).FindString", func(e *Exec, _ *frame, a []Value) Value {
 		e.path.noteNative("(*regexp.Regexp).FindString")
@@ -1010,3 +1041,23 @@ func (s stringerShim) MarshalJSON() ([]byte, error) {
 }
 
 var _ = utf8.RuneError
+
+// scanWork adds the bytes a regular-expression search looked at to the path's tally: up to the end
+// of the match it found, or the whole input when it found none. A harness bounds the tally with
+// nd.WorkBound; exceeding it ends the path as a "nonterm" failure (time not proportional to the
+// input: the matcher itself is native, so its work cannot be counted in loop iterations).
+func (e *Exec) scanWork(inputLen int, match []int) {
+	ps := e.path
+	if ps == nil || ps.workBound <= 0 {
+		return
+	}
+	n := inputLen
+	if len(match) >= 2 && match[1] >= 0 {
+		n = match[1]
+	}
+	ps.work += n
+	if ps.work > ps.workBound {
+		ps.failures = append(ps.failures, Failure{Kind: "nonterm", Label: "regexp-scan-work", Msg: fmt.Sprintf("regular-expression searches looked at more than %d input bytes (harness work bound)", ps.workBound), Model: ps.model.clone()})
+		panic(pathEnd{"work bound"})
+	}
+}
